@@ -140,6 +140,22 @@ pub fn needle_families(level: u8, rng: &mut Rng) -> Vec<Needle> {
             x[l - 2] = b'q';
             v.push(nd(format!("rare-beyond-254-{}", l), x));
         }
+        if level >= 1 && l >= 4 {
+            // runs of one byte closed by another: these drive a shift-and-add
+            // rolling hash through its carry chain (0x01.. fills the low bits,
+            // 0xFF.. and 0x20.. the high ones)
+            for (k, (c, d)) in [(0x01u8, 0xFFu8), (0x20, b'z'), (0xFF, 0x01), (0x7F, 0xFF)].iter().enumerate() {
+                if level == 1 && (k + l) % 2 == 1 {
+                    continue;
+                }
+                let mut x = vec![*c; l];
+                x[l - 1] = *d;
+                v.push(nd(format!("carry-{:02x}{:02x}-{}", c, d, l), x));
+            }
+            // the text-like needle with every byte's high bit set
+            let hi: Vec<u8> = base.iter().map(|b| b | 0x80).collect();
+            v.push(nd(format!("hibit-{}", l), hi));
+        }
         // random over small alphabets and over all bytes
         let reps = if level >= 2 { 3 } else { 1 };
         for k in 0..reps {
